@@ -134,7 +134,7 @@ def plan(tier):
         dict(compiler='g++', mode='debug', parts=P, shards=S),
         dict(compiler='clang++', mode='debug', parts=P, shards=S),
         # what a release build really does when the internal asserts are compiled out: no sanitizer, -O2
-        dict(compiler='g++', mode='ndebug', sanitize='none', opt='-O2', tag='-release', subset='narrow', parts=4 if t else 2, shards=S),
+        dict(compiler='g++', mode='ndebug', sanitize='none', opt='-O2', tag='-release', subset='narrow', defines=['VF_UNSAN=1'], parts=4 if t else 2, shards=S),
         # AddressSanitizer: exactly sized heap buffers instead of the arena (reads and far writes)
         dict(compiler='g++', mode='ndebug', sanitize='asan+ubsan-trap', tag='-asan', subset='narrow', defines=['VF_ASAN=1'], parts=4 if t else 2, shards=S),
     ]
